@@ -298,10 +298,23 @@ func (x *c32Ctx) allocBounds() {
 				reach := reachableAvoiding(fn.Blocks[0], ms.Block(), edges)
 				x.c.Check("C32.alloc_bound", key+": length is a decoded value compared with a constant limit on every path", len(edges) > 0 && !reach,
 					x.p.Pos(posOf(ms, fn)), sprintf("%d bounding test(s), largest limit %d", len(edges), maxC))
-				return
+			} else {
+				b, ok := c32StaticBound(ms.Len, 0)
+				x.c.Check("C32.alloc_bound", key+": length bounded by constants / static type", ok && b <= 1<<24, x.p.Pos(posOf(ms, fn)), sprintf("len=%s bound=%d", desc(ms.Len), b))
 			}
-			b, ok := c32StaticBound(ms.Len, 0)
-			x.c.Check("C32.alloc_bound", key+": length bounded by constants / static type", ok && b <= 1<<24, x.p.Pos(posOf(ms, fn)), sprintf("len=%s bound=%d", desc(ms.Len), b))
+			// the capacity is allocated too (make([]T, 0, n) with a wire-supplied n panics
+			// in makeslice or exhausts memory just like a length would)
+			if ms.Cap != nil && ms.Cap != ms.Len {
+				if a := c32LocalOf(ms.Cap); a != nil {
+					edges, maxC := c32UpperBoundEdges(fn, a)
+					reach := reachableAvoiding(fn.Blocks[0], ms.Block(), edges)
+					x.c.Check("C32.alloc_bound", key+": capacity is a decoded value compared with a constant limit on every path", len(edges) > 0 && !reach,
+						x.p.Pos(posOf(ms, fn)), sprintf("%d bounding test(s), largest limit %d", len(edges), maxC))
+				} else {
+					b, ok := c32StaticBound(ms.Cap, 0)
+					x.c.Check("C32.alloc_bound", key+": capacity bounded by constants / static type", ok && b <= 1<<24, x.p.Pos(posOf(ms, fn)), sprintf("cap=%s bound=%d", desc(ms.Cap), b))
+				}
+			}
 		})
 	}
 	x.c.Floor("C32.alloc_bound", n, 5)
